@@ -2039,3 +2039,398 @@ theorem columns_tally (types : List Nat) (rows : List (Nat × Rat))
       simp [e, this]
 
 end CTM.Election
+namespace CTM.Election
+open CTM.Numeric
+
+theorem mapM_ok_spec {α β ε} (f : α → Except ε β) : ∀ (l : List α) (ys : List β),
+    l.mapM f = .ok ys → ys.length = l.length ∧ ∀ y ∈ ys, ∃ a ∈ l, f a = .ok y
+  | [], ys, h => by
+    simp only [List.mapM_nil, pure, Except.pure, Except.ok.injEq] at h
+    subst h; simp
+  | a :: l, ys, h => by
+    rw [List.mapM_cons] at h
+    simp only [bind, Except.bind, pure, Except.pure] at h
+    split at h
+    · cases h
+    · next y hy =>
+      split at h
+      · cases h
+      · next ys' hys =>
+        cases h
+        obtain ⟨hl, hall⟩ := mapM_ok_spec f l ys' hys
+        refine ⟨by simp [hl], ?_⟩
+        intro z hz
+        rcases List.mem_cons.1 hz with rfl | hz
+        · exact ⟨a, by simp, hy⟩
+        · obtain ⟨b, hb, hfb⟩ := hall z hz
+          exact ⟨b, by simp [hb], hfb⟩
+
+/-- the rows handed to the accumulation loop carry the per-iteration nearest
+    leaves unchanged -/
+theorem rows_fst (near : List (Nat × Rat)) (corrOf : Nat → Nat → Rat) :
+    ((List.zip (List.range near.length) near).map
+      (fun (p : Nat × (Nat × Rat)) => (p.2.1, corrOf p.1 p.2.1))).map (·.1) = near.map (·.1) := by
+  rw [List.map_map]
+  have : ((fun (r : Nat × Rat) => r.1) ∘ fun (p : Nat × (Nat × Rat)) => (p.2.1, corrOf p.1 p.2.1))
+      = (fun r => r.1) ∘ Prod.snd := by funext p; rfl
+  rw [this, ← List.map_map, List.map_snd_zip (by simp)]
+
+theorem filter_length_of_map_fst_eq {β γ} (l1 : List (Nat × β)) (l2 : List (Nat × γ))
+    (h : l1.map (·.1) = l2.map (·.1)) (p : Nat → Bool) :
+    (l1.filter (fun r => p r.1)).length = (l2.filter (fun r => p r.1)).length := by
+  rw [← List.countP_eq_length_filter, ← List.countP_eq_length_filter]
+  have e1 : List.countP (fun r : Nat × β => p r.1) l1 = List.countP p (l1.map (·.1)) := by
+    rw [List.countP_map]; rfl
+  have e2 : List.countP (fun r : Nat × γ => p r.1) l2 = List.countP p (l2.map (·.1)) := by
+    rw [List.countP_map]; rfl
+  rw [e1, e2, h]
+
+end CTM.Election
+
+namespace CTM.Election
+open CTM.Numeric
+
+theorem tallyIter_spec (refs : List (List Rat)) (x : List Rat) (s : List Nat) (i : Nat) (q : Rat)
+    (h : tallyIter refs x s = .ok (i, q)) :
+    ∃ hi : i < refs.length,
+      q = corrSsq (pick s refs[i]) (pick s x) ∧
+      (∀ (j : Nat) (hj : j < refs.length), corrSsq (pick s refs[j]) (pick s x) ≤ q) ∧
+      (∀ (j : Nat) (hj : j < refs.length), j < i → corrSsq (pick s refs[j]) (pick s x) < q) := by
+  unfold tallyIter at h
+  split at h
+  · cases h
+  · split at h
+    · cases h
+    · next r hr =>
+      cases h
+      obtain ⟨hi, hs, hmax, hfirst⟩ := nearestLeaf_spec _ _ _ _ hr
+      have hi' : i < refs.length := by rw [List.length_map] at hi; exact hi
+      refine ⟨hi', ?_, ?_, ?_⟩
+      · rw [List.getElem_map] at hs; exact hs
+      · intro j hj
+        have := hmax j (by rw [List.length_map]; exact hj)
+        rw [List.getElem_map] at this; exact this
+      · intro j hj hlt
+        have := hfirst j (by rw [List.length_map]; exact hj) hlt
+        rw [List.getElem_map] at this; exact this
+
+theorem nearest_lt (refs : List (List Rat)) (x : List Rat) (s : List Nat) (i : Nat) (q : Rat)
+    (h : tallyIter refs x s = .ok (i, q)) : i < refs.length :=
+  (tallyIter_spec refs x s i q h).1
+
+/-- the rows of the accumulation loop built from the per-iteration results -/
+def rowsOf (near : List (Nat × Rat)) (corrOf : Nat → Nat → Rat) : List (Nat × Rat) :=
+  (List.zip (List.range near.length) near).map
+    (fun (p : Nat × (Nat × Rat)) => (p.2.1, corrOf p.1 p.2.1))
+
+theorem tallyVotes_eq (refs : List (List Rat)) (x : List Rat) (subsets : List (List Nat))
+    (corrOf : Nat → Nat → Rat) :
+    tallyVotes refs x subsets corrOf =
+      (subsets.mapM (tallyIter refs x)).map (fun near => tallyCell refs.length (rowsOf near corrOf)) := by
+  unfold tallyVotes rowsOf
+  cases subsets.mapM (tallyIter refs x) <;> rfl
+
+/-- C02.recompute: for the subsets that were drawn, the choice at a node is
+    reproduced by recomputing, per iteration, the arg-max leaf and counting the
+    iterations per child. -/
+theorem node_recompute (refs : List (List Rat)) (x : List Rat) (types : List Nat)
+    (subsets : List (List Nat)) (corrOf : Nat → Nat → Rat) (nAssign : Nat) (order : List Nat)
+    (ch : Choice) (tally : List Nat × List Rat) (hlen : types.length = refs.length)
+    (htally : tallyVotes refs x subsets corrOf = .ok tally)
+    (hv : ValidOrder (columns types tally.1 tally.2).1 order)
+    (hch : chooseCell types tally.1 tally.2 subsets.length nAssign order = .ok ch) :
+    ∃ near : List (Nat × Rat), subsets.mapM (tallyIter refs x) = .ok near ∧
+      near.length = subsets.length ∧
+      ch.winner ∈ types ∧
+      (∀ t ∈ types, (near.filter (fun r => types.getD r.1 0 == t)).length ≤
+        (near.filter (fun r => types.getD r.1 0 == ch.winner)).length) ∧
+      ch.prob = ((near.filter (fun r => types.getD r.1 0 == ch.winner)).length : Rat) /
+        (subsets.length : Rat) := by
+  rw [tallyVotes_eq] at htally
+  cases hnear : subsets.mapM (tallyIter refs x) with
+  | error e => rw [hnear] at htally; cases htally
+  | ok near =>
+    rw [hnear] at htally
+    simp only [Except.map] at htally
+    cases htally
+    obtain ⟨hnl, hspec⟩ := mapM_ok_spec _ _ _ hnear
+    refine ⟨near, rfl, hnl, ?_⟩
+    -- every row votes for an existing leaf
+    have hrows : ∀ r ∈ rowsOf near corrOf, r.1 < types.length := by
+      intro r hr
+      have hm : r.1 ∈ (rowsOf near corrOf).map (·.1) := List.mem_map.2 ⟨r, hr, rfl⟩
+      unfold rowsOf at hm
+      rw [rows_fst] at hm
+      obtain ⟨q, hq, hq1⟩ := List.mem_map.1 hm
+      obtain ⟨s, _, hs⟩ := hspec q hq
+      obtain ⟨i, sc⟩ := q
+      have := nearest_lt refs x s i sc hs
+      simp only at hq1
+      omega
+    have hcount : ∀ t, ((rowsOf near corrOf).filter (fun r => types.getD r.1 0 == t)).length =
+        (near.filter (fun r => types.getD r.1 0 == t)).length := fun t =>
+      filter_length_of_map_fst_eq _ _ (by unfold rowsOf; exact rows_fst near corrOf)
+        (fun i => types.getD i 0 == t)
+    rw [← hlen] at hv hch
+    obtain ⟨w, hw, hwin, hmax, hprob, _⟩ := chooseCols_winner hv hch
+    have hVw := columns_tally types (rowsOf near corrOf) hrows w hw
+    rw [← hwin, hcount] at hVw
+    refine ⟨?_, ?_, ?_⟩
+    · rw [hwin]
+      apply (columns_types_mem _ _ _ _).1
+      have hlenc := columns_length types (tallyCell types.length (rowsOf near corrOf)).1
+        (tallyCell types.length (rowsOf near corrOf)).2 (by rw [tallyCell_votes]; simp)
+      have hw' : w < (columns types (tallyCell types.length (rowsOf near corrOf)).1
+          (tallyCell types.length (rowsOf near corrOf)).2).2.2.length := by rw [hlenc]; exact hw
+      rw [List.getD_eq_getElem?_getD, List.getElem?_eq_getElem hw', Option.getD_some]
+      exact List.getElem_mem hw'
+    · intro t ht
+      have htm := (columns_types_mem types (tallyCell types.length (rowsOf near corrOf)).1
+        (tallyCell types.length (rowsOf near corrOf)).2 t).2 ht
+      obtain ⟨k, hk, hkt⟩ := List.mem_iff_getElem.1 htm
+      have hlenc := columns_length types (tallyCell types.length (rowsOf near corrOf)).1
+        (tallyCell types.length (rowsOf near corrOf)).2 (by rw [tallyCell_votes]; simp)
+      have hk' : k < (columns types (tallyCell types.length (rowsOf near corrOf)).1
+          (tallyCell types.length (rowsOf near corrOf)).2).1.length := by rw [← hlenc]; exact hk
+      have hVk := columns_tally types (rowsOf near corrOf) hrows k hk'
+      rw [List.getD_eq_getElem?_getD (l := (columns types _ _).2.2), List.getElem?_eq_getElem hk,
+        Option.getD_some, hkt, hcount] at hVk
+      rw [← hVk, ← hVw]
+      exact hmax k hk'
+    · rw [hprob, hVw]
+
+end CTM.Election
+
+namespace CTM.Election
+
+/-! ### assemble_query_data rows -/
+
+
+theorem mem_dictSet (d : List (Nat × Nat)) (k v : Nat) (e : Nat × Nat) :
+    e ∈ dictSet d k v → e = (k, v) ∨ e ∈ d := by
+  induction d with
+  | nil => intro h; simp [dictSet] at h; exact Or.inl h
+  | cons a d ih =>
+    obtain ⟨k', v'⟩ := a
+    unfold dictSet
+    split
+    · intro h
+      rcases List.mem_cons.1 h with h | h
+      · exact Or.inl h
+      · exact Or.inr (List.mem_cons_of_mem _ h)
+    · intro h
+      rcases List.mem_cons.1 h with h | h
+      · exact Or.inr (h ▸ List.mem_cons_self)
+      · rcases ih h with h | h
+        · exact Or.inl h
+        · exact Or.inr (List.mem_cons_of_mem _ h)
+
+theorem keys_dictSet (d : List (Nat × Nat)) (k v x : Nat) :
+    x ∈ (dictSet d k v).map (·.1) ↔ x = k ∨ x ∈ d.map (·.1) := by
+  induction d with
+  | nil => simp [dictSet]
+  | cons a d ih =>
+    obtain ⟨k', v'⟩ := a
+    unfold dictSet
+    split
+    · next h => subst h; simp
+    · simp only [List.map_cons, List.mem_cons, ih]; tauto
+
+theorem nodup_keys_dictSet (d : List (Nat × Nat)) (k v : Nat) (h : (d.map (·.1)).Nodup) :
+    ((dictSet d k v).map (·.1)).Nodup := by
+  induction d with
+  | nil => simp [dictSet]
+  | cons a d ih =>
+    obtain ⟨k', v'⟩ := a
+    simp only [List.map_cons, List.nodup_cons] at h
+    unfold dictSet
+    split
+    · next hk => subst hk; simpa using h
+    · next hk =>
+      simp only [List.map_cons, List.nodup_cons]
+      refine ⟨?_, ih h.2⟩
+      rw [keys_dictSet]
+      intro hc
+      rcases hc with hc | hc
+      · exact hk hc
+      · exact h.1 hc
+
+/-- invariant of the double loop: every entry maps a leaf to a child (among
+    those processed) that contains it; the keys are the leaves seen so far -/
+theorem inner_loop_inv (leavesOf : Nat → List Nat) (c : Nat) (P : Nat → Prop) (hc : P c) :
+    ∀ (ls : List Nat) (acc : List (Nat × Nat)),
+    (∀ l ∈ ls, l ∈ leavesOf c) →
+    (∀ e ∈ acc, P e.2 ∧ e.1 ∈ leavesOf e.2) → (acc.map (·.1)).Nodup →
+    (∀ e ∈ ls.foldl (fun acc leaf => dictSet acc leaf c) acc, P e.2 ∧ e.1 ∈ leavesOf e.2) ∧
+    ((ls.foldl (fun acc leaf => dictSet acc leaf c) acc).map (·.1)).Nodup ∧
+    (∀ x, x ∈ (ls.foldl (fun acc leaf => dictSet acc leaf c) acc).map (·.1) ↔
+      x ∈ ls ∨ x ∈ acc.map (·.1))
+  | [], acc, _, hacc, hnd => ⟨hacc, hnd, by simp⟩
+  | l :: ls, acc, hls, hacc, hnd => by
+    simp only [List.foldl_cons]
+    have h1 : ∀ e ∈ dictSet acc l c, P e.2 ∧ e.1 ∈ leavesOf e.2 := by
+      intro e he
+      rcases mem_dictSet acc l c e he with rfl | he
+      · exact ⟨hc, hls l (by simp)⟩
+      · exact hacc e he
+    obtain ⟨i1, i2, i3⟩ := inner_loop_inv leavesOf c P hc ls (dictSet acc l c)
+      (fun x hx => hls x (by simp [hx])) h1 (nodup_keys_dictSet acc l c hnd)
+    refine ⟨i1, i2, ?_⟩
+    intro x
+    rw [i3, keys_dictSet]
+    simp only [List.mem_cons]
+    tauto
+
+theorem outer_loop_inv (leavesOf : Nat → List Nat) (P : Nat → Prop) :
+    ∀ (cs : List Nat) (acc : List (Nat × Nat)), (∀ c ∈ cs, P c) →
+    (∀ e ∈ acc, P e.2 ∧ e.1 ∈ leavesOf e.2) → (acc.map (·.1)).Nodup →
+    (∀ e ∈ cs.foldl (fun acc c => (leavesOf c).foldl (fun acc leaf => dictSet acc leaf c) acc) acc,
+      P e.2 ∧ e.1 ∈ leavesOf e.2) ∧
+    ((cs.foldl (fun acc c => (leavesOf c).foldl (fun acc leaf => dictSet acc leaf c) acc) acc).map
+      (·.1)).Nodup ∧
+    (∀ x, x ∈ (cs.foldl (fun acc c => (leavesOf c).foldl (fun acc leaf => dictSet acc leaf c) acc)
+      acc).map (·.1) ↔ (∃ c ∈ cs, x ∈ leavesOf c) ∨ x ∈ acc.map (·.1))
+  | [], acc, _, hacc, hnd => ⟨hacc, hnd, by simp⟩
+  | c :: cs, acc, hcs, hacc, hnd => by
+    simp only [List.foldl_cons]
+    obtain ⟨j1, j2, j3⟩ := inner_loop_inv leavesOf c P (hcs c (by simp)) (leavesOf c) acc
+      (fun _ h => h) hacc hnd
+    obtain ⟨i1, i2, i3⟩ := outer_loop_inv leavesOf P cs _
+      (fun x hx => hcs x (by simp [hx])) j1 j2
+    refine ⟨i1, i2, ?_⟩
+    intro x
+    rw [i3, j3]
+    constructor
+    · rintro (⟨c', hc', hx⟩ | hx | hx)
+      · exact Or.inl ⟨c', List.mem_cons_of_mem _ hc', hx⟩
+      · exact Or.inl ⟨c, List.mem_cons_self, hx⟩
+      · exact Or.inr hx
+    · rintro (⟨c', hc', hx⟩ | hx)
+      · rcases List.mem_cons.1 hc' with rfl | hc'
+        · exact Or.inr (Or.inl hx)
+        · exact Or.inl ⟨c', hc', hx⟩
+      · exact Or.inr (Or.inr hx)
+
+theorem mem_insSorted (x a : Nat) : ∀ l : List Nat, a ∈ insSorted x l ↔ a = x ∨ a ∈ l
+  | [] => by simp [insSorted]
+  | y :: ys => by
+    unfold insSorted
+    split
+    · simp
+    · simp only [List.mem_cons, mem_insSorted x a ys]; tauto
+
+theorem mem_sortList (a : Nat) : ∀ l : List Nat, a ∈ sortList l ↔ a ∈ l
+  | [] => by simp [sortList]
+  | x :: xs => by simp [sortList, mem_insSorted, mem_sortList a xs]
+
+theorem sorted_insSorted (x : Nat) : ∀ l : List Nat, l.Pairwise (· ≤ ·) →
+    (insSorted x l).Pairwise (· ≤ ·)
+  | [], _ => by simp [insSorted]
+  | y :: ys, h => by
+    unfold insSorted
+    rw [List.pairwise_cons] at h
+    split
+    · next hle =>
+      rw [List.pairwise_cons]
+      refine ⟨?_, List.pairwise_cons.2 h⟩
+      intro a ha
+      rcases List.mem_cons.1 ha with rfl | ha
+      · exact hle
+      · exact le_trans hle (h.1 a ha)
+    · next hnle =>
+      rw [List.pairwise_cons]
+      refine ⟨?_, sorted_insSorted x ys h.2⟩
+      intro a ha
+      rcases (mem_insSorted x a ys).1 ha with rfl | ha
+      · omega
+      · exact h.1 a ha
+
+theorem sorted_sortList : ∀ l : List Nat, (sortList l).Pairwise (· ≤ ·)
+  | [] => by simp [sortList]
+  | x :: xs => sorted_insSorted x _ (sorted_sortList xs)
+
+theorem perm_insSorted (x : Nat) : ∀ l : List Nat, (insSorted x l).Perm (x :: l)
+  | [] => by simp [insSorted]
+  | y :: ys => by
+    unfold insSorted
+    split
+    · exact List.Perm.refl _
+    · exact ((perm_insSorted x ys).cons y).trans (List.Perm.swap x y ys)
+
+theorem perm_sortList : ∀ l : List Nat, (sortList l).Perm l
+  | [] => by simp [sortList]
+  | x :: xs => (perm_insSorted x _).trans ((perm_sortList xs).cons x)
+
+end CTM.Election
+
+namespace CTM.Election
+
+theorem lookup_of_mem_keys : ∀ (d : List (Nat × Nat)) (k : Nat), k ∈ d.map (·.1) →
+    ∃ v, d.lookup k = some v ∧ (k, v) ∈ d
+  | [], k, h => by simp at h
+  | (k', v') :: d, k, h => by
+    by_cases e : k = k'
+    · subst e
+      exact ⟨v', by simp [List.lookup], by simp⟩
+    · have hk : k ∈ d.map (·.1) := by
+        simp only [List.map_cons, List.mem_cons] at h
+        rcases h with h | h
+        · exact absurd h e
+        · exact h
+      obtain ⟨v, hv, hm⟩ := lookup_of_mem_keys d k hk
+      refine ⟨v, ?_, List.mem_cons_of_mem _ hm⟩
+      rw [List.lookup_cons]
+      have : (k == k') = false := by simpa using e
+      rw [this]; exact hv
+
+/-- "considering only leaves below the node" / "the child that contains the
+    leaf": the reference rows of a node are exactly the leaves of its children,
+    sorted and without repetition, and the type recorded for a row is a child of
+    the node that contains that leaf. -/
+theorem assembleRows_spec (kids : List Nat) (leavesOf : Nat → List Nat) :
+    (assembleRows kids leavesOf).1.Pairwise (· < ·) ∧
+    (∀ x, x ∈ (assembleRows kids leavesOf).1 ↔ ∃ c ∈ kids, x ∈ leavesOf c) ∧
+    (assembleRows kids leavesOf).2.length = (assembleRows kids leavesOf).1.length ∧
+    (∀ (i : Nat) (hi : i < (assembleRows kids leavesOf).1.length),
+      (assembleRows kids leavesOf).2.getD i 0 ∈ kids ∧
+      (assembleRows kids leavesOf).1[i] ∈ leavesOf ((assembleRows kids leavesOf).2.getD i 0)) := by
+  obtain ⟨i1, i2, i3⟩ := outer_loop_inv leavesOf (· ∈ kids) (sortList kids) []
+    (fun c hc => (mem_sortList c kids).1 hc) (by simp) (by simp)
+  have hd : leafToType kids leavesOf = (sortList kids).foldl
+      (fun acc c => (leavesOf c).foldl (fun acc leaf => dictSet acc leaf c) acc) [] := rfl
+  rw [← hd] at i1 i2 i3
+  unfold assembleRows
+  simp only
+  refine ⟨?_, ?_, by simp, ?_⟩
+  · have hs := sorted_sortList ((leafToType kids leavesOf).map (·.1))
+    have hn : (sortList ((leafToType kids leavesOf).map (·.1))).Nodup :=
+      (perm_sortList _).nodup_iff.2 i2
+    exact (hs.and hn).imp (fun h => lt_of_le_of_ne h.1 h.2)
+  · intro x
+    rw [mem_sortList, i3]
+    simp only [List.map_nil, List.not_mem_nil, or_false]
+    constructor
+    · rintro ⟨c, hc, hx⟩; exact ⟨c, (mem_sortList c kids).1 hc, hx⟩
+    · rintro ⟨c, hc, hx⟩; exact ⟨c, (mem_sortList c kids).2 hc, hx⟩
+  · intro i hi
+    have hmem : (sortList ((leafToType kids leavesOf).map (·.1)))[i] ∈
+        (leafToType kids leavesOf).map (·.1) :=
+      (mem_sortList _ _).1 (List.getElem_mem hi)
+    obtain ⟨v, hv, hm⟩ := lookup_of_mem_keys _ _ hmem
+    have := i1 _ hm
+    rw [List.getD_eq_getElem?_getD, List.getElem?_map, List.getElem?_eq_getElem hi,
+      Option.map_some, Option.getD_some, hv, Option.getD_some]
+    exact this
+
+/-- in a strict tree (the leaf sets of distinct children are disjoint) the
+    recorded type is THE child that contains the leaf -/
+theorem assembleRows_unique (kids : List Nat) (leavesOf : Nat → List Nat)
+    (hdisj : ∀ c ∈ kids, ∀ c' ∈ kids, ∀ x, x ∈ leavesOf c → x ∈ leavesOf c' → c = c')
+    (i : Nat) (hi : i < (assembleRows kids leavesOf).1.length) (c : Nat) (hc : c ∈ kids)
+    (hx : (assembleRows kids leavesOf).1[i] ∈ leavesOf c) :
+    (assembleRows kids leavesOf).2.getD i 0 = c := by
+  obtain ⟨_, _, _, h4⟩ := assembleRows_spec kids leavesOf
+  obtain ⟨h5, h6⟩ := h4 i hi
+  exact hdisj _ h5 _ hc _ h6 hx
+
+end CTM.Election
